@@ -42,6 +42,10 @@ def run(ctx):
     ctx.gate()
     props_ok, failing, log = ctx.props()
     ctx.build(["Model/ChanSeq.vo", "Spec/Ref9112.vo"])
+    if props_ok:
+        okf, outf = vcommon.coq_compile_capture("Findings/C01_witnesses.v")
+        if not okf:
+            ctx.notes.append("Findings/C01_witnesses.v no longer compiles (a finding stopped reproducing in the model?): " + outf[-400:])
     rng = ctx.rng
 
     # ---- K-chanseq: the models the theorems are about vs the real channel ----
